@@ -187,6 +187,10 @@ OnStep(e) == IF ~e.quiet THEN m' = m ELSE
 OnQuiesce1(e) ==
   /\ m' = m
   /\ Check(l, "C01.NotBlockedAfterTermination", m.term => e.blockedCalls = <<>>)
+  \* "... or with an error once the connection breaks": once the reader has been given EOF / an error no answer can
+  \* arrive any more, so at rest no call is still waiting for one (calls in flight were retired by the reader's
+  \* exit, calls begun afterwards are refused) - unless a transport write is stalled by the environment
+  /\ Check(l, "C01.NotBlockedAfterBreak", (m.rdDown /\ m.stalled = {}) => e.blockedCalls = <<>>)
   /\ Check(l, "C04.PromptReturn", \A i \in DOMAIN e.blockedCalls : ~Call(e.blockedCalls[i]).cancelled)
   /\ Check(l, "C02.AnsweredWhenUsable",
            m.usable /\ m.closeSeq = 0 /\ ~m.rdDown =>
